@@ -19,19 +19,23 @@ Lemma mp_merge (f : bool) r k :
   = guard (Ok (f && negb (mp_unique r))) k.
 Proof.
   unfold mp_unique, tag_eq_str, has_tag. change t_mp with [109; 112]. change s_unique with [117; 110; 105; 113; 117; 101].
-  destruct f; destruct (get_tag r [109; 112]) as [[z|s]|]; cbn; try reflexivity.
-  destruct (str_eqb s [117; 110; 105; 113; 117; 101]); reflexivity.
+  destruct f; destruct (get_tag r [109; 112]) as [[z|s]|]; cbn; reflexivity.
 Qed.
+
+Lemma existsb_cons {A} (f : A -> bool) x l : existsb f (x :: l) = f x || existsb f l.
+Proof. reflexivity. Qed.
 
 Lemma existsb_ops2 a b : forall c,
   existsb (Z.eqb a) c || existsb (Z.eqb b) c = existsb (fun op => existsb (Z.eqb op) [a; b]) c.
 Proof.
-  induction c as [|x c IH]; [reflexivity|]. cbn [existsb]. rewrite <- IH, (Z.eqb_sym x a), (Z.eqb_sym x b). btauto.
+  induction c as [|x c IH]; [reflexivity|]. rewrite !existsb_cons, <- IH. cbn [existsb].
+  rewrite (Z.eqb_sym x a), (Z.eqb_sym x b). btauto.
 Qed.
 
 Lemma existsb_ops1 a : forall c, existsb (Z.eqb a) c = existsb (fun op => existsb (Z.eqb op) [a]) c.
 Proof.
-  induction c as [|x c IH]; [reflexivity|]. cbn [existsb]. rewrite <- IH, (Z.eqb_sym x a). btauto.
+  induction c as [|x c IH]; [reflexivity|]. rewrite !existsb_cons, <- IH. cbn [existsb].
+  rewrite (Z.eqb_sym x a). btauto.
 Qed.
 
 Lemma cig12 r b : rand (Ok b) (ror (cig_in r 1) (cig_in r 2)) = if b then cig_has r [1; 2] else Ok false.
@@ -73,12 +77,14 @@ Qed.
 Ltac solve_guard :=
   first [ reflexivity
         | solve [f_equal; btauto]
+        | solve [f_equal; rewrite ?Z.gtb_ltb, ?Z.geb_leb; btauto]   (* a > b written for b < a *)
         | apply cig12 | apply cig4 | apply nm_gen | apply rand_ok_if | apply bl_gen ].
 
 (* the guard chain of the current source, in source order, is the model's filter *)
 Lemma gen_should_count_eq o r : gen_should_count o r = should_count o r.
 Proof.
   unfold gen_should_count, gen_guards, should_count. cbn [fold_right]. rewrite mp_merge.
+  cbv [t_RR t_NM t_XA t_NH].
   repeat (apply guard_cong; [solve_guard|]). reflexivity.
 Qed.
 
